@@ -120,9 +120,16 @@ def local_executions(code, reply, rng, trials=6):
             pool = boundary + sorted(jumpdests)[:6] + [rng.getrandbits(256), rng.getrandbits(8), rng.getrandbits(16)]
             entry = [rng.choice(pool) for _ in range(depth)]
             stack, pc, out = list(entry), b[0][0], None
+            # state-dependent reads: an arbitrary oracle stream (small values now and then so that equal / unequal
+            # reads and jump destinations all occur)
+            style = rng.randrange(3)
+            def fresh(style=style):
+                if style == 0: return rng.choice([0, 1])
+                if style == 1: return rng.choice(pool)
+                return rng.getrandbits(256)
             try:
                 for o, op, imm in b:
-                    r = R.step(op, imm, o, stack)
+                    r = R.step(op, imm, o, stack, fresh)
                     if r[0] == "next":
                         stack = r[1]
                     else:
@@ -253,6 +260,26 @@ def gen_program(rng, nblocks=None, heavy_exp=False):
     if rng.random() < 0.15:
         out += bytes([rng.randrange(0x60, 0x80)])      # truncated trailing push
     return bytes(out)
+
+
+def gen_double_read(rng):
+    """two reads of the same state-dependent quantity (same argument) feeding a comparison that decides a branch or a
+    jump target: the machine state may change between the reads (a call in between), so they need not be equal"""
+    op = rng.choice([0x3d, 0x47, 0x59, 0x5a, 0x31, 0x3b, 0x3f, 0x51, 0x54, 0x20])
+    k = S.of_fork("cancun", op)[0]
+    def read():
+        return b"".join(push(rng.choice([0, 1, 64])) for _ in range(k)) + bytes([op])
+    code = bytearray(read())
+    if rng.random() < 0.5:
+        code += b"".join(push(0) for _ in range(7)) + b"\xf1\x50"      # a call in between, result dropped
+    code += read()
+    code.append(rng.choice([0x14, 0x10, 0x11, 0x03, 0x18]))
+    tail_at = len(code) + 3 + 2
+    if rng.random() < 0.6:
+        code += push(tail_at, width=1) + b"\x57\x00\x5b\x00"
+    else:
+        code += b"\x56" + b"\x5b\x00" * 3
+    return bytes(code)
 
 
 def gen_opcode_probe(rng, op):
